@@ -99,8 +99,10 @@ func (o *runObs) summary() string {
 
 // agreeKey is what the two context spellings must agree on.
 func (o *runObs) agreeKey() string {
-	return fmt.Sprintf("started=%v after=%v statusB=%s statusA=%s ok=%v/%v nres=%d final=%s diff=%v proc=%v",
-		o.started, o.after, o.statusB, o.statusA, o.gotRes, o.ok, len(o.resTypes), o.final, o.diff, o.children > 0 || o.reaped)
+	// (the number of results is left out: for self-recursive spellings such as
+	// pcall as its own __call it depends on the Go stack depth at entry)
+	return fmt.Sprintf("started=%v after=%v statusB=%s statusA=%s ok=%v/%v final=%s diff=%v proc=%v",
+		o.started, o.after, o.statusB, o.statusA, o.gotRes, o.ok, o.final, o.diff, o.children > 0 || o.reaped)
 }
 
 func scanSecret(v rt.Value, depth int, seen map[*rt.Table]bool) bool {
@@ -142,39 +144,7 @@ func runOne(funcs []fnRec, f *fnRec, required rt.ComplianceFlags, tp tuple, sp i
 	if err != nil {
 		panic(fmt.Sprintf("c08 harness: cannot resolve %s: %v", f.name, err))
 	}
-	env := &argEnv{mc: mc}
-	args := env.values(tp)
-	r := mc.r
-
-	// metamethod spellings: the subject is the first argument when it can
-	// carry a metatable of its own (string, table), else a proxy table.
-	tgt := rt.NilValue
-	rest := args
-	mm := func(field string) {
-		meta := rt.NewTable()
-		meta.Set(rt.StringValue(field), fv)
-		if len(args) > 0 && (args[0].Type() == rt.StringType || args[0].Type() == rt.TableType) {
-			tgt, rest = args[0], args[1:]
-		} else {
-			tgt = rt.TableValue(rt.NewTable())
-		}
-		r.SetRawMetatable(tgt, meta)
-	}
-	switch sp {
-	case 3:
-		mm("__index")
-	case 4:
-		mm("__call")
-	case 5:
-		meta := rt.NewTable()
-		meta.Set(rt.StringValue("__concat"), fv)
-		tgt = rt.TableValue(rt.NewTable())
-		r.SetRawMetatable(tgt, meta)
-		if len(rest) > 1 {
-			rest = rest[:1]
-		}
-	}
-	bargs := append([]rt.Value{rt.IntValue(int64(sp)), fv, tgt, env.tbl}, rest...)
+	bargs := spellArgs(mc, fv, tp, sp)
 
 	// set-up that may itself touch the sentinel: producer calls, snippets
 	s0 := sent.pristine
@@ -211,6 +181,42 @@ func runOne(funcs []fnRec, f *fnRec, required rt.ComplianceFlags, tp tuple, sp i
 		}
 	}
 	return o
+}
+
+// spellArgs materialises the tuple and prepares the spelling: for the
+// metamethod spellings the subject is the first argument when it can carry a
+// metatable of its own (string, table), else a proxy table.
+func spellArgs(mc *machine, fv rt.Value, tp tuple, sp int) []rt.Value {
+	env := &argEnv{mc: mc}
+	args := env.values(tp)
+	r := mc.r
+	tgt := rt.NilValue
+	rest := args
+	mm := func(field string) {
+		meta := rt.NewTable()
+		meta.Set(rt.StringValue(field), fv)
+		if len(args) > 0 && (args[0].Type() == rt.StringType || args[0].Type() == rt.TableType) {
+			tgt, rest = args[0], args[1:]
+		} else {
+			tgt = rt.TableValue(rt.NewTable())
+		}
+		r.SetRawMetatable(tgt, meta)
+	}
+	switch sp {
+	case 3:
+		mm("__index")
+	case 4:
+		mm("__call")
+	case 5:
+		meta := rt.NewTable()
+		meta.Set(rt.StringValue("__concat"), fv)
+		tgt = rt.TableValue(rt.NewTable())
+		r.SetRawMetatable(tgt, meta)
+		if len(rest) > 1 {
+			rest = rest[:1]
+		}
+	}
+	return append([]rt.Value{rt.IntValue(int64(sp)), fv, tgt, env.tbl}, rest...)
 }
 
 // judge applies the reference expectation to one observation.
@@ -267,6 +273,13 @@ func main() {
 	initStdio()
 	defer sent.remove()
 	defer removeFuncFile()
+	if len(os.Args) > 3 && os.Args[1] == "-straceinner" {
+		var a, n uint64
+		fmt.Sscan(os.Args[2], &a)
+		fmt.Sscan(os.Args[3], &n)
+		straceInner(a, n)
+		return
+	}
 	if len(os.Args) > 3 && os.Args[1] == "-bench" { // -bench <start> <count> [tier]
 		tier := "quick"
 		if len(os.Args) > 4 {
@@ -370,7 +383,8 @@ func families(tier string) []*core.Family {
 	show := func(i uint64) string {
 		c := decode(i)
 		f := funcs[c.fn]
-		return fmt.Sprintf("fn=%s declared=%s required=%s args=%s spelling=%s", f.name, flagNames(f.declared), flagNames(c.required), tuples[c.tp], spellings[c.sp].name)
+		return fmt.Sprintf("fn=%s declared=%s required=%s args=%s spelling=%s\nLua equivalent (SENT = sentinel directory):\n%s",
+			f.name, flagNames(f.declared), flagNames(c.required), tuples[c.tp], spellings[c.sp].name, luaRepro(&f, c.required, tuples[c.tp], c.sp))
 	}
 	run := func(i uint64) core.Outcome {
 		c := decode(i)
@@ -379,10 +393,21 @@ func families(tier string) []*core.Family {
 		if f.danger && !e.mustRefuse {
 			return core.Outcome{Skipped: true}
 		}
+		extraTuple := c.tp >= len(quickTuples)
+		if (tier != "thorough" || extraTuple) && !e.mustRefuse && !e.noOutside {
+			// the property says nothing about this (function, flags) pair;
+			// the thorough tier still runs it on the quick pool for the
+			// context-spelling agreement
+			return core.Outcome{Skipped: true}
+		}
+		ways := []bool{false, true}
+		if extraTuple {
+			ways = []bool{i%2 == 1} // the additional tuples alternate between the two context entries
+		}
 		var obs [2]runObs
 		var viols []*core.Violation
 		seen := map[string]bool{}
-		for k, lua := range []bool{false, true} {
+		for k, lua := range ways {
 			obs[k] = runOne(funcs, f, c.required, tuples[c.tp], c.sp, lua)
 			for _, cl := range judge(e, &obs[k]) {
 				key := fmt.Sprintf("fn=%s %s sp=%s clause=%s", f.name, e.class, spellings[c.sp].class, cl)
@@ -397,7 +422,7 @@ func families(tier string) []*core.Family {
 					Detail: detail(show(i), lua, e, &obs[k])})
 			}
 		}
-		if a, b := obs[0].agreeKey(), obs[1].agreeKey(); a != b {
+		if a, b := obs[0].agreeKey(), obs[1].agreeKey(); len(ways) == 2 && a != b {
 			viols = append(viols, &core.Violation{
 				Key:    fmt.Sprintf("fn=%s %s sp=%s clause=context-spellings-disagree", f.name, e.class, spellings[c.sp].class),
 				Detail: fmt.Sprintf("%s\nRuntimeContextDef{RequiredFlags}: %s\nruntime.callcontext{flags=}:     %s", show(i), a, b),
@@ -408,10 +433,11 @@ func families(tier string) []*core.Family {
 		return out
 	}
 	fams := []*core.Family{{
-		Name: "gate", Size: nF * 16 * nT * nS, Run: run, Show: show, HangSeconds: 60,
+		Name: "gate", Size: nF * 16 * nT * nS, Run: run, Show: show, HangSeconds: 300,
 	}}
+	fams[0].BudgetSeconds = 240
 	if tier == "thorough" {
-		fams[0].BudgetSeconds = 14 * 60
+		fams[0].BudgetSeconds = 13 * 60
 		fams = append(fams, straceFamily(funcs, tuples)...)
 	}
 	famCache[tier] = fams
@@ -449,11 +475,91 @@ func extra(tier string) map[string]interface{} {
 	}
 }
 
+var atomLua = map[atomID]string{
+	aPS: `SENT.."/secret.txt"`, aPG: `SENT.."/granted.txt"`, aPM: `SENT.."/missing.txt"`, aPD: `SENT.."/dir"`,
+	aCMD: `"echo x > "..SENT.."/popen"`, aMOD: `"mod"`, aTPL: `SENT.."/?.lua"`, aR: `"r"`, aW: `"w"`, aA: `"a"`,
+	aI0: "0", aI1: "1", aI7: "7", aTBL: "TBL", aFN: "FN", aNIL: "nil", aHR: "HR", aHW: "HW", aCTX: "CTX", aCO: "CO",
+	aSET: `"set"`, aDOT: `"."`, aT: `"t"`, aTRUE: "true",
+}
+
+// luaRepro renders a case as a Lua program (for humans; the check itself
+// builds the values through the Go API).
+func luaRepro(f *fnRec, required rt.ComplianceFlags, tp tuple, sp int) string {
+	var sb strings.Builder
+	sb.WriteString("package.path = SENT..\"/?.lua\"\n")
+	var fexpr string
+	switch f.acc.kind {
+	case accStrMeta:
+		fexpr = stepsLua(`getmetatable("")`, f.acc.steps)
+	case accSnippet:
+		fexpr = stepsLua("(function() local PG = SENT..\"/granted.txt\"; "+snippets[f.acc.idx].src+" end)()", f.acc.steps)
+	case accCall:
+		fexpr = stepsLua("<result of "+f.name+", produced before the context>", f.acc.steps)
+	case accStatic:
+		fexpr = stepsLua("_G", f.acc.steps)
+	}
+	fmt.Fprintf(&sb, "local f = %s\n", fexpr)
+	var as []string
+	for _, a := range tp {
+		as = append(as, atomLua[a])
+		switch a {
+		case aTBL:
+			sb.WriteString("local TBL = {}\n")
+		case aFN:
+			sb.WriteString("local FN = function() print('callback ran') end\n")
+		case aHR:
+			sb.WriteString("local HR = io.open(SENT..\"/granted.txt\", \"r\")\n")
+		case aHW:
+			sb.WriteString("local HW = io.open(SENT..\"/grantedw.txt\", \"w\")\n")
+		case aCO:
+			sb.WriteString("local CO = coroutine.create(function() end)\n")
+		}
+	}
+	args := strings.Join(as, ", ")
+	var call string
+	switch sp {
+	case 0:
+		call = "local r = {f(" + args + ")}"
+	case 1:
+		call = "return f(" + args + ")"
+	case 2:
+		call = "return pcall(f" + map[bool]string{true: ", ", false: ""}[args != ""] + args + ")"
+	case 3:
+		call = "-- subject = first argument (string: debug.setmetatable(\"\", {__index=f}); table: setmetatable) or a proxy table\n  return SUBJECT[" + args + "]  -- __index = f"
+	case 4:
+		call = "-- subject as above with __call = f\n  return SUBJECT(" + args + ")"
+	case 5:
+		call = "return (" + map[bool]string{true: "nil", false: ""}[len(as) == 0] + strings.Join(as[:min(1, len(as))], "") + ") .. setmetatable({}, {__concat = f})"
+	case 6:
+		call = "return coroutine.wrap(function(...) return f(...) end)(" + args + ")"
+	case 7:
+		call = "return coroutine.wrap(f)(" + args + ")"
+	case 8:
+		call = "return load(\"return f(...)\", \"=c08\", \"t\", {f = f})(" + args + ")"
+	}
+	fmt.Fprintf(&sb, "print(runtime.callcontext({flags = %q}, function()\n  %s\nend))", strings.Join(required.Names(), " "), call)
+	return sb.String()
+}
+
+func stepsLua(expr string, st []step) string {
+	for _, s := range st {
+		if s.meta {
+			expr = "getmetatable(" + expr + ")"
+		} else if k, ok := s.key.TryString(); ok {
+			expr += "." + k
+		} else {
+			n, _ := s.key.TryInt()
+			expr += fmt.Sprintf("[%d]", n)
+		}
+	}
+	return expr
+}
+
 // runsCases reports whether this process executes cases (worker, -case, -replay).
 func runsCases() bool {
 	for _, a := range os.Args[1:] {
 		switch strings.TrimLeft(a, "-") {
-		case "worker", "case", "replay":
+		case "worker", "case", "replay", "straceinner", "bench":
 			return true
 		}
 		if strings.HasPrefix(a, "-case=") || strings.HasPrefix(a, "--case=") || strings.HasPrefix(a, "-replay=") || strings.HasPrefix(a, "--replay=") {
